@@ -61,6 +61,12 @@ def build_engine(spec, weights=None):
         e.rule_blocks.append(fl.RuleBlock(rb.get("name", "rb%d" % bi), description=rb.get("description", ""), enabled=rb.get("enabled", True),
                                           conjunction=mk(rb.get("conjunction")), disjunction=mk(rb.get("disjunction")),
                                           implication=mk(rb.get("implication")), activation=mk(rb.get("activation", ("General",))), rules=rules))
+    for path, value in spec.get("assign", []):
+        # attributes assigned after construction (states a constructor would not produce, e.g. a Triangle whose right vertex is NaN)
+        obj = e
+        for step in path[:-1]:
+            obj = getattr(obj, step) if isinstance(step, str) else obj[step]
+        setattr(obj, path[-1], value)
     if spec.get("share_defuzzifier"):
         # every output variable that has a defuzzifier holds the same object (of the first that has one)
         have = [ov for ov in e.output_variables if ov.defuzzifier is not None]
